@@ -77,18 +77,50 @@ def run_selfcheck(ctx):
     levels = "0,2" if ctx.tier == "quick" else "0,1,2,3"
     d = os.path.join(vlib.CACHE, "progs")
     os.makedirs(d, exist_ok=True)
-    f = os.path.join(d, f"{ctx.pid}_scale_{os.getpid()}.txt")
-    open(f, "w").write("\n=====\n".join(c[1] for c in cases))
-    rc, out = vlib.sh([paths["hx_run"], "--file", f, "--opts", levels, "--budget", "120000000"], timeout=2400)
-    os.remove(f)
-    if rc != 0:
-        ctx.violation("c02:scale:harness-crash", "the toolchain crashed the harness process on a size-limit program (abort / stack overflow)",
-                      {"output_tail": out[-1500:]})
+    # shards run in parallel; the very large programs (compile time grows faster than linearly
+    # with the size of one body) each get a process of their own and a time limit: a program
+    # that is still compiling at the limit is counted as not decided, which is not a violation
+    order = sorted(range(len(cases)), key=lambda i: -len(cases[i][1]))
+    big = [i for i in order if len(cases[i][1]) > 300000]
+    rest = [i for i in order if i not in set(big)]
+    nsh = 12
+    shards = [[i] for i in big] + [rest[k::nsh] for k in range(nsh) if rest[k::nsh]]
+    limit = 900 if ctx.tier == "quick" else 3000
+
+    def run_shard(k_ix):
+        k, ix = k_ix
+        f = os.path.join(d, f"{ctx.pid}_scale_{os.getpid()}_{k}.txt")
+        open(f, "w").write("\n=====\n".join(cases[i][1] for i in ix))
+        rc, out = vlib.sh([paths["hx_run"], "--file", f, "--opts", levels, "--budget", "120000000"], timeout=limit)
+        os.remove(f)
+        return ix, rc, out
+
+    import concurrent.futures
     res = collections.defaultdict(dict)
-    for line in out.splitlines():
-        t = line.split("\t")
-        if len(t) >= 7 and t[0].isdigit():
-            res[int(t[0])][t[1]] = (t[3], unesc(t[4]), t[6])
+    undecided = []
+    with concurrent.futures.ThreadPoolExecutor(max_workers=14) as ex:
+        for ix, rc, out in ex.map(run_shard, enumerate(shards)):
+            seen = collections.defaultdict(set)
+            for line in out.splitlines():
+                t = line.split("\t")
+                if len(t) >= 7 and t[0].isdigit() and int(t[0]) < len(ix):
+                    res[ix[int(t[0])]][t[1]] = (t[3], unesc(t[4]), t[6])
+                    seen[int(t[0])].add(t[1])
+            if rc == 0:
+                continue
+            # the program the process stopped in: the first one without a result at every level
+            stop = next((j for j in range(len(ix)) if len(seen[j]) < len(levels.split(","))), len(ix) - 1)
+            name = cases[ix[stop]][0]
+            if rc == 124 and out.endswith("[timeout]"):
+                undecided += [cases[i][0] for i in ix[stop:]]
+                continue
+            src = cases[ix[stop]][1]
+            ctx.violation(f"c02:scale:{name.rsplit('-', 1)[0]}:harness-crash",
+                          f"the toolchain crashed the harness process (abort / stack overflow, exit {rc}) on size-limit program {name}",
+                          {"generator": "tools/gen/scalegen.py", "name": name, "seed": ctx.seed, "output_tail": out[-1500:],
+                           "program": src if len(src) < 60000 else src[:2000] + " ...(regenerate with the generator)"})
+    if undecided:
+        ctx.log(f"size-limit programs still compiling / running at the {limit}s limit (not decided): {undecided}")
     st = collections.Counter()
     fam = collections.Counter()
     for i, (name, src, exp) in enumerate(cases):
@@ -96,7 +128,7 @@ def run_selfcheck(ctx):
         for o in levels.split(","):
             r = res[i].get(o)
             if r is None:
-                st["missing-run"] += 1
+                st["not-decided-time-limit" if name in undecided else "missing-run"] += 1
                 continue
             cls, outp, detail = r
             if cls == "compile-error":
